@@ -211,7 +211,6 @@ Definition hd_strand (t : list loc) : byte := match t with [] => S_NONE | l0 :: 
 Definition spec_rc_locs (L : Z) (t : list loc) : list loc :=
   sort_by (order_of (strand_reverse (hd_strand t))) (map (mirror L) t).
 Definition spec_rc_ft (L : Z) (f : feature) : feature := mkFt (spec_rc_locs L (flocs f)) (fmeta f).
-Definition defects_ok (t : list loc) : bool := forallb (fun l => (ldefect l <? 256)%N) t.
 Definition stranded (t : list loc) : bool :=
   match t with [] => false | l0 :: _ => byte_eqb (lstrand l0) cPlus || byte_eqb (lstrand l0) cMinus end.
 (* OPEN FINDING F31 rc_tie_order: on a feature without strand ('.' or '?') two locations with the same start
@@ -229,7 +228,12 @@ Inductive op :=
 | OSlice (a b : option Z) (r : Z)       (* fts = fts.slice(a, b, rel=r) *)
 | ORc (L : Z)                           (* fts.rc(seqlen=L) *)
 | OFtRc (i : nat) (L : Z)               (* fts[i].rc(seqlen=L) *)
-| OSetLocs (i : nat) (raws : list rawloc).   (* fts[i].locs = [Location(...), ...] *)
+| OSetLocs (i : nat) (raws : list rawloc)    (* fts[i].locs = [Location(...), ...] *)
+| OShareLocs (i j : nat)                (* fts[i].locs = fts[j].locs  (the Location objects become shared) *)
+| OQSlice (a b : option Z) (r : Z) (mut : option Z)
+                                        (* q = fts.slice(a, b, rel=r) observed, fts unchanged; with mut = Some L the RESULT is
+                                           then mirrored in place (q.rc(L)) and observed again *)
+| OQCmp (i j : nat).                    (* comparisons between fts[i].locs and fts[j].locs observed *)
 
 Fixpoint update_nth {A} (i : nat) (f : A -> option A) (l : list A) : option (list A) :=
   match l, i with
@@ -248,18 +252,29 @@ Definition apply_op (o : op) (st : list feature) : option (list feature) :=
       | Some ls => update_nth i (fun f => set_locs f ls) st
       | None => None
       end
+  | OShareLocs i j =>
+      match nth_error st j with
+      | Some fj => update_nth i (fun f => set_locs f (flocs fj)) st
+      | None => Some st
+      end
+  | OQSlice _ _ _ _ => Some st
+  | OQCmp _ _ => Some st
   end.
 
 Definition B62 : Z := 4611686018427387904.   (* 2^62 *)
 Definition num_ok (z : Z) : bool := (- B62 <? z) && (z <? B62).
 Definition raw_ok (r : rawloc) : bool :=
-  match r with (a, b, s, d, m) => num_ok a && num_ok b && (d <? 256)%N end.
+  match r with (a, b, s, d, m) => num_ok a && num_ok b end.
 (* domain of one operation in the current state: an unbounded window side needs the current coordinates inside the
    box |x| < 2^62 (the code substitutes +-sys.maxsize); empty and inverted windows are inside the domain *)
 Definition op_ok (o : op) (st : list feature) : bool :=
   match o with
   | OSlice a b r =>
       match a, b with Some _, Some _ => true | _, _ => coords_in B62 st end
+  | OQSlice a b r mut =>
+      match a, b with Some _, Some _ => true | _, _ => coords_in B62 st end
+  | OShareLocs _ _ => true
+  | OQCmp _ _ => true
   | ORc L => true
   | OFtRc i L => true
   | OSetLocs i raws => forallb raw_ok raws
@@ -293,7 +308,39 @@ Definition v_ft (f : feature) : val := VL [VL (map v_loc (flocs f)); VI (fmeta f
 Definition v_fts (fts : list feature) : val := VL (map v_ft fts).
 Definition vErr : val := VE (bs "ValueError"%bs).
 
-(* history: build the features, apply the operations, report the final list and its loc_range *)
+Definition v_cmp (t u : list loc) : val :=
+  VL [VB (lt_lt t u); VB (lt_le t u); VB (lt_gt t u); VB (lt_ge t u); VB (lt_overlaps t u);
+      VI (fst (range t)); VI (snd (range t)); VI (fst (range u)); VI (snd (range u))].
+(* what the driver records after each operation: the whole current list (state-changing operations) or the queried value *)
+Definition observe (o : op) (st st' : list feature) : val :=
+  match o with
+  | OQSlice a b r mut =>
+      match slice a b r st with
+      | None => vErr
+      | Some k =>
+          match mut with
+          | None => v_fts k
+          | Some L => match fts_rc L k with Some k' => VL [v_fts k; v_fts k'] | None => vErr end
+          end
+      end
+  | OQCmp i j =>
+      match nth_error st i, nth_error st j with
+      | Some fi, Some fj => v_cmp (flocs fi) (flocs fj)
+      | _, _ => VNone
+      end
+  | _ => v_fts st'
+  end.
+Fixpoint run_log (ops : list op) (st : list feature) : list val :=
+  match ops with
+  | [] => []
+  | o :: rest =>
+      match apply_op o st with
+      | Some st' => observe o st st' :: run_log rest st'
+      | None => [vErr]
+      end
+  end.
+
+(* history: build the features, apply the operations, report the log, the final list and its loc_range *)
 Definition run_C08 (fs : list (list rawloc * Z)) (ops : list op) : val :=
   VL [VB (wf_C08 fs ops);
       match build fs with
@@ -301,7 +348,7 @@ Definition run_C08 (fs : list (list rawloc * Z)) (ops : list op) : val :=
       | Some st =>
           match snd (run_ops ops st true) with
           | None => vErr
-          | Some st' => VL [v_fts st'; VI (fst (loc_range st')); VI (snd (loc_range st'))]
+          | Some st' => VL [VL (run_log ops st); v_fts st'; VI (fst (loc_range st')); VI (snd (loc_range st'))]
           end
       end].
 
@@ -325,9 +372,36 @@ Definition run_C08_cmp (r1 r2 : list rawloc) : val :=
   | Some l1, Some l2 =>
       match mk_loctuple l1, mk_loctuple l2 with
       | Some t, Some u =>
-          VL [VB okd; VL [VB (lt_lt t u); VB (lt_le t u); VB (lt_gt t u); VB (lt_ge t u); VB (lt_overlaps t u);
-                          VI (fst (range t)); VI (snd (range t)); VI (fst (range u)); VI (snd (range u))]]
+          VL [VB okd; v_cmp t u]
       | _, _ => VL [VB okd; vErr]
       end
   | _, _ => VL [VB okd; vErr]
   end.
+
+(* argument checking of the constructors and comparisons (fts.py:164-178, 209-210, 217-218, 225-226, 233-234, 252-253, 282-283, 387-388) *)
+Definition vTypeErr : val := VE (bs "TypeError"%bs).
+Definition sTypeErr : val := VS (bs "TypeError"%bs).
+Definition run_C08_api (v : N) (raws : list rawloc) : val :=
+  VL [VB (forallb raw_ok raws);
+      match v with
+      | 0%N => vErr            (* LocationTuple(locs, start=..., stop=...): one of locs or start/stop *)
+      | 1%N => vErr            (* LocationTuple(): no location specified *)
+      | 2%N =>                 (* LocationTuple([(start, stop, strand, defect), ...]): plain tuples are converted, any failure is a TypeError *)
+          match raws with
+          | [] => vErr
+          | _ => match all_some (map mk_raw raws) with
+                 | None => vTypeErr
+                 | Some ls => match mk_loctuple ls with Some t => VL (map v_loc t) | None => vErr end
+                 end
+          end
+      | 3%N =>                 (* comparisons with something that is not a LocationTuple / Feature raise TypeError *)
+          match all_some (map mk_raw raws) with
+          | None => vErr
+          | Some ls => match mk_loctuple ls with
+                       | None => vErr
+                       | Some t => VL [sTypeErr; sTypeErr; sTypeErr; sTypeErr; sTypeErr; sTypeErr; VB (lt_overlaps t t); VB (lt_overlaps t t)]
+                       end
+          end
+      | _ =>                   (* Feature(locs=[...]) without type and metadata *)
+          match mk_feature raws 0 with Some f => VL (map v_loc (flocs f)) | None => vErr end
+      end].
